@@ -52,3 +52,7 @@ mod smart_account;
 mod context_rules;
 #[cfg(kani)]
 mod verifiers;
+// the example contracts not mounted by another family; submodules gated like their library families
+// (vault_ex: feature vaultstub, webauthn_ex: feature utf8stub)
+#[cfg(kani)]
+mod examples;
